@@ -305,6 +305,56 @@ V('c05-fin-when-payload-empty', 'C05', T,
   """                if repr.payload.is_empty() || offset + repr.payload.len() == self.tx_buffer.len() {
                     match self.state {""", 'R05.4')
 
+V('c02-no-rearm-after-emit', 'C02', T,
+  """        if repr.segment_len() > 0 && !self.timer.is_retransmit() {""",
+  """        if repr.segment_len() > 0 && !self.timer.is_retransmit() && !repr.payload.is_empty() {""", 'R02.1')
+V('c02-timer-retransmit-ingress', 'C02', T,
+  """            Timer::Retransmit { expires_at, .. } => PollAt::Time(expires_at),""",
+  """            Timer::Retransmit { .. } => PollAt::Ingress,""", 'R02.2')
+V('c02-pollat-no-window-update', 'C02', T,
+  """        } else if self.window_to_update() {
+            // The receive window has been raised significantly.
+            PollAt::Now
+        } else {""",
+  """        } else {""", 'R02.3')
+V('c02-reno-no-floor', 'C02', 'src/socket/tcp/congestion/reno.rs',
+  """        self.cwnd = self.cwnd.saturating_add(inc).min(self.rwnd).max(self.mss);""",
+  """        self.cwnd = self.cwnd.saturating_add(inc).min(self.rwnd);""", 'R02.4')
+V('c02-cubic-rto-zero', 'C02', 'src/socket/tcp/congestion/cubic.rs',
+  """        self.cwnd = self.mss;
+        self.cwnd_prior = in_flight;""",
+  """        self.cwnd = 0;
+        self.cwnd_prior = in_flight;""", 'R02.4')
+V('c13-slaac-option-min', 'C13', 'src/iface/interface/mod.rs',
+  """            res = match (res, self.inner.slaac.poll_at(timestamp)) {
+                (Some(a), Some(b)) => Some(a.min(b)),
+                (a, b) => a.or(b),
+            };""",
+  """            res = res.min(self.inner.slaac.poll_at(timestamp));""", 'R02.5')
+V('c13-dns-ignore-timeout', 'C13', 'src/socket/dns.rs',
+  """                State::Pending(pq) => Some(PollAt::Time(match pq.timeout_at {
+                    Some(timeout_at) => pq.retransmit_at.min(timeout_at),
+                    None => pq.retransmit_at,
+                })),""",
+  """                State::Pending(pq) => Some(PollAt::Time(pq.retransmit_at)),""", 'R13.1')
+V('c13-meta-ignore-neighbor', 'C13', 'src/iface/socket_meta.rs',
+  """            NeighborState::Waiting { neighbor, .. } if has_neighbor(neighbor) => socket_poll_at,
+""",
+  """""", 'R13.2')
+V('c13-no-fragmenter-test', 'C13', 'src/iface/interface/mod.rs',
+  """        #[cfg(feature = "_proto-fragmentation")]
+        if !self.fragmenter.is_empty() {
+            return Some(Instant::from_millis(0));
+        }
+
+        #[allow(unused_mut)]""",
+  """        #[allow(unused_mut)]""", 'R13.3')
+V('c13-slaac-stale', 'C13', 'src/iface/slaac.rs',
+  """            Phase::Discovering | Phase::Start if self.num_solicitations > 0 => {
+                Some(self.retry_rs_at)
+            }""",
+  """            Phase::Discovering | Phase::Start => Some(self.retry_rs_at),""", 'R13.4')
+
 S('silent-tcp-rename-local', ['C17'], T,
   """        let mut ack_of_fin = false;""",
   """        let mut ack_of_fin = false; let _unused_marker = 0u8;""", 'adds an unused local')
